@@ -1169,7 +1169,7 @@ def str_to_lowercase(e, args, fr, m):
         return Str(s.v.lower())
     if isinstance(s, CaseStr):
         return Str(s.base.lower())
-    if isinstance(s, NameStr):
+    if isinstance(s, (NameStr, PathStr)):
         return s.lower()
     if getattr(s, 'lower_invariant', False) is True:
         return s
@@ -1185,6 +1185,8 @@ def str_to_uppercase(e, args, fr, m):
             return Str(s.v.upper())
         f = (lambda c: c.upper()) if which == 'to_ascii_uppercase' else (lambda c: c.lower())
         return Str(''.join(f(c) if c.isascii() else c for c in s.v))
+    if isinstance(s, PathStr) and which == 'to_uppercase':
+        return s.upper()
     if isinstance(s, NameStr):
         if which == 'to_uppercase':
             return s.upper()
@@ -1204,7 +1206,7 @@ def str_contains(e, args, fr, m):
     s, p = e.load(args[0]), e.load(args[1])
     if s.concrete and p.concrete:
         return p.v in s.v
-    if isinstance(s, NameStr) and p.concrete:
+    if isinstance(s, (NameStr, PathStr)) and p.concrete:
         return s.contains(p.v)
     return z3.simplify(z3.Contains(s.z(), p.z()))
 
@@ -1214,9 +1216,23 @@ def str_contains_char(e, args, fr, m):
     s, c = e.load(args[0]), e.force(args[1])
     if s.concrete and c.concrete:
         return chr(c.v) in s.v
+    if isinstance(s, (NameStr, PathStr)) and c.concrete:
+        return s.contains(chr(c.v))
     if c.concrete:
         return z3.simplify(z3.Contains(s.z(), z3.StringVal(chr(c.v))))
     raise Unsupported('contains with symbolic char')
+
+
+@contract(r'^<impl str>::ends_with::<char>$')
+def str_ends_with_char(e, args, fr, m):
+    s, c = e.load(args[0]), e.force(args[1])
+    if s.concrete and c.concrete:
+        return s.v.endswith(chr(c.v))
+    if isinstance(s, (NameStr, PathStr)) and c.concrete:
+        return s.ends_with(chr(c.v))
+    if c.concrete:
+        return z3.simplify(z3.SuffixOf(z3.StringVal(chr(c.v)), s.z()))
+    raise Unsupported('ends_with with symbolic char')
 
 
 @contract(r'^<impl str>::ends_with::<&str>$')
@@ -1224,7 +1240,7 @@ def str_ends_with(e, args, fr, m):
     s, p = e.load(args[0]), e.load(args[1])
     if s.concrete and p.concrete:
         return s.v.endswith(p.v)
-    if isinstance(s, NameStr) and p.concrete:
+    if isinstance(s, (NameStr, PathStr)) and p.concrete:
         return s.ends_with(p.v)
     return z3.simplify(z3.SuffixOf(p.z(), s.z()))
 
@@ -1234,7 +1250,7 @@ def str_starts_with(e, args, fr, m):
     s, p = e.load(args[0]), e.load(args[1])
     if s.concrete and p.concrete:
         return s.v.startswith(p.v)
-    if isinstance(s, NameStr) and p.concrete:
+    if isinstance(s, (NameStr, PathStr)) and p.concrete:
         return s.starts_with(p.v)
     return z3.simplify(z3.PrefixOf(p.z(), s.z()))
 
@@ -1244,6 +1260,8 @@ def str_starts_with_char(e, args, fr, m):
     s, c = e.load(args[0]), e.force(args[1])
     if s.concrete:
         return s.v.startswith(chr(c.v))
+    if isinstance(s, (NameStr, PathStr)) and c.concrete:
+        return s.starts_with(chr(c.v))
     if isinstance(s, SegStr) and s.segs:
         if s.segs[0][0] == 'lit' and s.segs[0][1]:
             return s.segs[0][1].startswith(chr(c.v))
@@ -2109,6 +2127,97 @@ def path_file_name(e, args, fr, m):
     if ent is None:
         return some(Adt('OsStr', None, (Str(key.rsplit('/', 1)[-1]),)))
     return some(Adt('OsStr', None, (ent['name'],)))
+
+
+class PathStr(Str):
+    """a whole path as text: components (concrete Str or NameStr) joined by `/`. Tests with a pattern that contains no `/` are
+    decided per component (a suffix test looks at the last component, provided the pattern is not longer than it)"""
+    __slots__ = ('comps',)
+
+    def __init__(self, comps):
+        self.comps = list(comps)
+        self.v = None
+
+    @property
+    def concrete(self):
+        return False
+
+    def z(self):
+        raise Unsupported('PathStr has no string-theory form')
+
+    def lower(self):
+        return PathStr([(Str(c.v.lower()) if c.concrete else c.lower()) for c in self.comps])
+
+    def upper(self):
+        return PathStr([(Str(c.v.upper()) if c.concrete else c.upper()) for c in self.comps])
+
+    @staticmethod
+    def _clen(c):
+        return len(c.v) if c.concrete else len(c.chars)
+
+    def contains(self, text):
+        if '/' in text:
+            raise Unsupported('path pattern with a separator')
+        return disj([(text in c.v) if c.concrete else c.contains(text) for c in self.comps])
+
+    def ends_with(self, text):
+        last = self.comps[-1]
+        if '/' in text or len(text) > self._clen(last):
+            if '/' not in text and len(text) > self._clen(last):
+                # the pattern would have to span a separator, which it does not contain
+                return False
+            raise Unsupported('path suffix pattern with a separator')
+        return last.v.endswith(text) if last.concrete else last.ends_with(text)
+
+    def starts_with(self, text):
+        first = self.comps[0]
+        if '/' in text or len(text) > self._clen(first):
+            raise Unsupported('path prefix pattern across components')
+        return first.v.startswith(text) if first.concrete else first.starts_with(text)
+
+    def render(self, model):
+        return '/'.join(c.v if c.concrete else c.render(model) for c in self.comps)
+
+
+def _path_text(e, key):
+    """the path string the program sees for a world key: the analysed directory's own name, then the entry names"""
+    w = _world(e)
+    parts = key.split('/')
+    comps = [Str(parts[0])]
+    k = parts[0]
+    for comp in parts[1:]:
+        k = k + '/' + comp
+        ent = _entry_of(w, k)
+        comps.append(ent['name'] if ent is not None else Str(comp))
+    if all(c.concrete for c in comps):
+        return Str('/'.join(c.v for c in comps))
+    return PathStr(comps)
+
+
+@contract(r'^Path::(to_string_lossy|to_str|display)$|^PathBuf::(to_string_lossy|to_str|display)$')
+def path_to_text(e, args, fr, m):
+    which = m.group(1) or m.group(2)
+    t = _path_text(e, _path_key(e, args[0]))
+    return some(t) if which == 'to_str' else t
+
+
+@contract(r'^OsStr::(to_string_lossy|to_str|to_os_string|to_owned)$|^OsString::(into_string|to_string_lossy|to_str|as_os_str)$')
+def osstr_to_text(e, args, fr, m):
+    v = e.load(args[0])
+    which = m.group(1) or m.group(2)
+    inner = e.load(v.fields[0]) if isinstance(v, Adt) and v.ty == 'OsStr' else v
+    if which in ('to_os_string', 'to_owned', 'as_os_str'):
+        return v
+    if which == 'to_str':
+        return some(inner)
+    if which == 'into_string':
+        return ok(inner)
+    return inner
+
+
+@contract(r"^<Cow<'_, str> as Deref>::deref$|^<Cow<'_, str> as ToString>::to_string$|^Cow::<'_, str>::into_owned$|^<Display<'_> as ToString>::to_string$")
+def cow_str(e, args, fr, m):
+    return e.load(args[0])
 
 
 @contract(r'^Path::(extension|file_stem)$|^PathBuf::(extension|file_stem)$')
